@@ -23,6 +23,7 @@ C15_CLAUSES = ('stale', 'wrong', 'missing', 'crash')
 
 NON_DICTS = [5, 'row', None, ['id'], ('id', 1), 2.5]
 POOL_MAX = 4
+MAX_ROWS = 40
 
 
 class _Sink(object):
@@ -356,6 +357,8 @@ class GridMachine(BaseCheck):
                 elif op == 'clear':
                     del model[:]
                     g.clear()
+                elif op in ('extend_self', 'extend_grid') and len(model) + len(pool[o.get('src', gi_target) % len(pool)][1]) > MAX_ROWS:
+                    skipped = True       # keep grids small: repeated doubling would make a long history cost O(2^k)
                 elif op == 'extend_self':
                     if unique and model:
                         skipped = True
